@@ -40,14 +40,17 @@ THEOREMS = [P_ + n for n in (
     'euclid_algo_eq_spec', 'mahal_algo_eq_spec', 'poisson_algo_eq_spec', 'corr_algo_eq_spec',
     'poissonPrior_eq_rateSpec', 'distVec_eq_spec', 'distSpec_symm',
     'calcRdmNoDesc_correct', 'calcRdm_correct', 'calcRdm_obs_perm', 'calcRdm_remove_mean',
-    'propagate_spec', 'calcRdm_descs', 'calcRdmList_entry', 'movie_eq_stack', 'binTime_spec', 'lbl_order_ok')]
+    'propagate_spec', 'calcRdm_descs', 'calcRdmList_entry', 'movie_eq_stack', 'binTime_spec', 'lbl_order_ok',
+    'calcRdmList_singleton', 'fromPartials_length', 'movie_frames_general', 'mergeRdmDescs_spec')]
 RULE = ('one PRNG drives everything. A case is one calc_rdm / calc_rdm_movie call: dataset(s) of '
         '2-14 observations x 1-6 channels with values that are small integers or eighths, int or '
         'str labels (balanced or not, shuffled), extra obs descriptors (constant / varying within '
         'condition), dataset descriptors, method in {euclidean, correlation, mahalanobis, poisson} '
         'with SPD precision A^T A + I, priors, remove_mean; single dataset, [ds], several datasets '
         'with differing label sets (with / without condition descriptor), movies with / without '
-        'bins. Each case carries a variant (observation permutation, list/array descriptors, '
+        'bins (time values may repeat, bins may have equal means, time descriptor / bins as lists or '
+        'arrays, default or second time descriptor, per-dataset noise), vector-valued dataset '
+        'descriptors, noise lists with None entries. Each case carries a variant (observation permutation, list/array descriptors, '
         'int/float dtype, ds vs [ds]). Non-trivial = at least 2 conditions and not all '
         'dissimilarities equal; distinct = distinct (kind, method, options, data, variant).')
 BRANCHES = ['desc:none', 'desc:given', 'avg:yes', 'avg:no', 'noise:none', 'noise:matrix',
@@ -55,14 +58,19 @@ BRANCHES = ['desc:none', 'desc:given', 'avg:yes', 'avg:no', 'noise:none', 'noise
             'movie:nobins', 'movie:bins', 'movie:singleton_bin', 'movie:list', 'movie:nodesc',
             'rm:true', 'dtype:int', 'dtype:float', 'descs:list', 'descs:array', 'labels:int',
             'labels:str', 'pdesc:kept', 'pdesc:dropped', 'perm', 'unique',
+            'movie:repeated_time', 'movie:merged_bins', 'movie:default_time', 'movie:time_list',
+            'movie:bins_list', 'movie:noise_list', 'movie:other_time_descriptor',
+            'noise:list_none', 'ddesc:vector', 'ddesc:names_differ',
             'method:euclidean', 'method:correlation', 'method:mahalanobis', 'method:poisson']
 ASSUMPTIONS = [
     'float64 evaluation of either side is within 1e-9 relative / 1e-12 absolute of the exact value '
     '(inputs are small integers / eighths, well-conditioned by construction)',
     'correlation is only asked for condition means that are not constant across channels; poisson '
     'only for positive regularised rates (the formulas are undefined otherwise)',
-    'time descriptors have distinct values and bins have distinct, non-empty contents (the library '
-    'merges equal time values into one frame, which time_as_observations cannot represent)',
+    'bins are non-empty; without a condition descriptor time values are distinct and bins have '
+    'distinct mean times (merged frames would have more positional conditions than the other '
+    'frames, which concat refuses); with a descriptor repeated time values and equal-mean bins '
+    'are generated (they share one frame)',
 ]
 TRUSTED_EXTRA = [
     'scipy.spatial.distance.squareform: vector <-> symmetric hollow matrix in triu order '
@@ -99,6 +107,12 @@ def lkey(v):
         return lkey(float(v)) if v.denominator != 1 else 'i:' + str(v.numerator)
     if isinstance(v, np.ndarray) and v.ndim == 0:
         return lkey(v.item())
+    if isinstance(v, (list, tuple, np.ndarray)) and len(v) == 1:
+        return lkey(v[0])       # a one-element list *is* the per-RDM entry list of one RDM
+    if isinstance(v, (list, tuple, np.ndarray)):
+        return 'v:[' + ','.join(lkey(x) for x in v) + ']'
+    if v is None:
+        return 'none'
     return 'o:' + repr(v)
 
 
@@ -204,6 +218,8 @@ def _gen_dataset(rng, P, method, labelled, conds=None, eighths=None, n_obs=None)
         ddesc['subj'] = rng.randint(1, 9)
     if rng.random() < 0.5:
         ddesc['sess'] = rng.choice(['pre', 'post'])
+    if rng.random() < 0.15:       # vector-valued descriptor (e.g. simulation parameters)
+        ddesc['params'] = [rng.randint(0, 5) for _ in range(rng.choice([1, 2, 3]))]
     return {'X': [[rat(v) for v in row] for row in X], 'labels': labels, 'descs': descs,
             'ddesc': ddesc}
 
@@ -237,8 +253,10 @@ def _method_opts(rng, method, P, n_ds=1, allow_rm=True):
         r = rng.random()
         if r < 0.15:
             opts['noise'] = None
-        elif n_ds > 1 and r < 0.45:
+        elif n_ds > 1 and r < 0.6:
             opts['noise'] = {'per': [_noise(rng, P) for _ in range(n_ds)]}
+            if rng.random() < 0.6:      # None = identity default for that dataset
+                opts['noise']['per'][rng.randrange(n_ds)] = None
         else:
             opts['noise'] = {'one': _noise(rng, P)}
     if method == 'poisson' and rng.random() < 0.6:
@@ -297,10 +315,32 @@ def gen_list(rng):
     if rng.random() < 0.85:       # usually the datasets share their descriptor names
         for d in dss:
             for k in keys:
-                d['ddesc'].setdefault(k, rng.randint(1, 9) if k == 'subj' else rng.choice(['pre', 'post']))
+                d['ddesc'].setdefault(k, [1, 2] if k == 'params' else rng.randint(1, 9) if k == 'subj'
+                                      else rng.choice(['pre', 'post']))
+    if not labelled and isinstance(case['noise'], dict) and 'per' in case['noise']:
+        # without a condition descriptor the stack is built by concat, which refuses to mix the
+        # 'squared euclidean' RDM of a None entry with 'squared mahalanobis' ones
+        case['noise']['per'] = [m or _noise(rng, P) for m in case['noise']['per']]
     case['datasets'] = dss
     case['variant'] = _variant(rng, case)
     return case
+
+
+def _frame_groups(times, bins):
+    """frames of a movie as lists of slices; a slice is the list of time indices it averages
+    (library semantics: bin -> mean; equal (binned) time values share one frame)"""
+    T = len(times)
+    if bins is None:
+        slices = [([t], times[t]) for t in range(T)]
+    else:
+        slices = []
+        for b in bins:
+            sel = [t for t in range(T) if times[t] in b]
+            slices.append((sel, sum(times[t] for t in sel) / len(sel)))
+    frames = {}
+    for sel, tv in slices:
+        frames.setdefault(tv, []).append(sel)
+    return list(frames.items())
 
 
 def gen_movie(rng):
@@ -308,34 +348,42 @@ def gen_movie(rng):
     P = rng.randint(2 if method == 'correlation' else 1, 4)
     T = rng.randint(1 if rng.random() < 0.1 else 2, 5)
     labelled = rng.random() < 0.8
-    n_ds = 2 if rng.random() < 0.2 else 1
-    case = {'kind': 'movie', 'P': P, **_method_opts(rng, method, P, 1, allow_rm=False)}
+    n_ds = 2 if rng.random() < 0.25 else 1
+    case = {'kind': 'movie', 'P': P, **_method_opts(rng, method, P, n_ds, allow_rm=False)}
     if isinstance(case['noise'], dict) and 'per' in case['noise']:
-        case['noise'] = {'one': case['noise']['per'][0]}
-    # time values: distinct, not necessarily increasing, eighths
+        if n_ds == 1:
+            case['noise'] = {'one': case['noise']['per'][0] or _noise(rng, P)}
+        else:
+            case['noise']['per'] = [m or _noise(rng, P) for m in case['noise']['per']]
+    # time values: quarters, not necessarily increasing; with a condition descriptor they may
+    # repeat (equal values share one frame)
     times = rng.sample([F(k, 4) for k in range(-4, 24)], T)
+    repeated = labelled and T >= 2 and rng.random() < 0.2
+    if repeated:
+        times[rng.randrange(1, T)] = times[0]
     if rng.random() < 0.6:
         times.sort()
+    default_time = (not repeated) and rng.random() < 0.1
+    if default_time:
+        times = [F(t) for t in range(T)]
     bins = None
     if rng.random() < 0.55:
-        idx = list(range(T))
-        rng.shuffle(idx)
-        nb = rng.randint(1, T)
-        cuts = sorted(rng.sample(range(1, T), nb - 1)) if nb > 1 else []
-        groups = [idx[a:b] for a, b in zip([0] + cuts, cuts + [T])]
+        vals = list(dict.fromkeys(times))
+        rng.shuffle(vals)
+        nb = rng.randint(1, len(vals))
+        cuts = sorted(rng.sample(range(1, len(vals)), nb - 1)) if nb > 1 else []
+        groups = [vals[a:b] for a, b in zip([0] + cuts, cuts + [len(vals)])]
         if rng.random() < 0.3 and len(groups) > 1:
             groups = groups[:-1]        # some time points in no bin
-        bins = [[times[i] for i in g] for g in groups]
-        means = [sum(b) / len(b) for b in bins]
-        if len(set(means)) < len(means):
-            bins = None
+        bins = groups
+        if len(_frame_groups(times, bins)) < len(bins) and not labelled:
+            bins = None     # merged frames change the number of (positional) conditions
     conds = _labels(rng, rng.choice([2, 3, 3, 4])) if labelled else None
     dss = []
     for _ in range(n_ds):
         for _try in range(50):
-            frames = [_gen_dataset(rng, P, method, labelled, conds=conds,
-                                   n_obs=None if labelled else 3) for _ in range(1)]
-            base = frames[0]
+            base = _gen_dataset(rng, P, method, labelled, conds=conds,
+                                n_obs=None if labelled else 3)
             n = len(base['X'])
             X3 = [[[_val(rng, method, True) for _ in range(T)] for _ in range(P)] for _ in range(n)]
             if method == 'correlation' and not _movie_ok(X3, base['labels'], times, bins):
@@ -351,7 +399,8 @@ def gen_movie(rng):
         keys = sorted({k for d in dss for k in d['ddesc']})
         for d in dss:
             for k in keys:
-                d['ddesc'].setdefault(k, rng.randint(1, 9) if k == 'subj' else rng.choice(['pre', 'post']))
+                d['ddesc'].setdefault(k, [1] if k == 'params' else rng.randint(1, 9) if k == 'subj'
+                                      else rng.choice(['pre', 'post']))
         if not labelled:
             for d in dss[1:]:
                 d['descs'] = {k: list(v) for k, v in dss[0]['descs'].items()}
@@ -360,20 +409,23 @@ def gen_movie(rng):
     case['datasets'] = dss
     case['times'] = [rat(t) for t in times]
     case['bins'] = None if bins is None else [[rat(t) for t in b] for b in bins]
-    case['tname'] = rng.choice(['time', 'time', 'onset'])
+    case['tname'] = 'time' if default_time else rng.choice(['time', 'time', 'onset'])
     case['as_list'] = n_ds > 1 or rng.random() < 0.15
+    case['tform'] = {'default_time': default_time,
+                     'tdesc_type': rng.choice(['array', 'array', 'list']),
+                     'bins_type': rng.choice(['array', 'array', 'list'])}
     case['variant'] = {'desc_type': 'array', 'dtype': 'float', 'wrap': 'single', 'perm': None}
     return case
 
 
 def _movie_ok(X3, labels, times, bins):
-    """every (binned) frame has non-constant condition means (needed for correlation)"""
-    T = len(times)
-    groups = [[t] for t in range(T)] if bins is None else \
-        [[t for t in range(T) if times[t] in b] for b in bins]
-    for g in groups:
-        Xs = [[sum(ob[c][t] for t in g) / len(g) for c in range(len(ob))] for ob in X3]
-        rows = list(_cond_means(Xs, labels).values()) if labels else Xs
+    """every frame has non-constant condition means (needed for correlation)"""
+    for _tv, sels in _frame_groups(times, bins):
+        Xs, labs = [], []
+        for g in sels:
+            Xs += [[sum(ob[c][t] for t in g) / len(g) for c in range(len(ob))] for ob in X3]
+            labs += list(labels) if labels else []
+        rows = list(_cond_means(Xs, labs).values()) if labels else Xs
         if _const_rows(rows):
             return False
     return True
@@ -422,10 +474,16 @@ def _build(case, ds, k, temporal=False):
         descs = {name: [v[i] for i in p] for name, v in descs.items()}
     obs = {name: _np_desc(v, var['desc_type']) for name, v in descs.items()}
     if temporal:
-        times = np.array([float(fr(t)) for t in case['times']])
-        tds = {'time': np.arange(len(times)) if case['tname'] != 'time' else times}
+        tform = case.get('tform', {})
+        times = [float(fr(t)) for t in case['times']]
+        if all(t.is_integer() for t in times) and tform.get('default_time'):
+            times = [int(t) for t in times]
+        tv = list(times) if tform.get('tdesc_type') == 'list' else np.array(times)
+        tds = {'time': np.arange(len(times)) if case['tname'] != 'time' else tv}
         if case['tname'] != 'time':
-            tds[case['tname']] = times
+            tds[case['tname']] = tv
+        if tform.get('default_time'):
+            tds = None          # the constructor supplies time = 0 .. n_time-1
         return TemporalDataset(X, descriptors=dict(ds['ddesc']), obs_descriptors=obs,
                                time_descriptors=tds)
     return Dataset(X, descriptors=dict(ds['ddesc']), obs_descriptors=obs)
@@ -437,7 +495,8 @@ def _noise_arg(case):
         return None
     if 'one' in nz:
         return np.array([[float(fr(v)) for v in row] for row in nz['one']])
-    return [np.array([[float(fr(v)) for v in row] for row in m]) for m in nz['per']]
+    return [None if m is None else np.array([[float(fr(v)) for v in row] for row in m])
+            for m in nz['per']]
 
 
 def _call_kwargs(case):
@@ -463,7 +522,9 @@ def call_library(case):
             dss = [_build(case, ds, k, temporal=True) for k, ds in enumerate(case['datasets'])]
             arg = dss if case['as_list'] else dss[0]
             if case['bins'] is not None:
-                kw['bins'] = [np.array([float(fr(t)) for t in b]) for b in case['bins']]
+                as_list = case.get('tform', {}).get('bins_type') == 'list'
+                kw['bins'] = [[float(fr(t)) for t in b] if as_list
+                              else np.array([float(fr(t)) for t in b]) for b in case['bins']]
             if case['tname'] != 'time':
                 kw['time_descriptor'] = case['tname']
             return calc_rdm_movie(arg, **kw)
@@ -587,14 +648,17 @@ def model_requests(case):
         elif 'one' in nz:
             req['noises'] = [_enc_mat(case, nz['one'])] * len(dss)
         else:
-            req['noises'] = [_enc_mat(case, m) for m in nz['per']]
-        return [req]
+            req['noises'] = [None if m is None else _enc_mat(case, m) for m in nz['per']]
+        # second request: the datasets' descriptors -> merged rdm descriptors of the stack
+        return [req, {'op': 'c01.rdesc',
+                      'dss': [[[k, v] for k, v in ds['ddesc'].items()] for ds in dss]}]
     reqs = []
-    for ds in dss:
+    for k, ds in enumerate(dss):
         r = dict(req)
         r.update(op='c01.movie', X=[[[_enc(case, v) for v in ch] for ch in ob] for ob in ds['X']],
                  labels=ds['labels'], times=case['times'], bins=case['bins'],
-                 noise=None if nz is None else _enc_mat(case, nz['one']))
+                 noise=None if nz is None else
+                 _enc_mat(case, nz['one'] if 'one' in nz else nz['per'][k]))
         reqs.append(r)
     return reqs
 
@@ -636,12 +700,13 @@ def model_result(case, answers):
         a = answers[0]
         conds = [lkey(v) for v in a['labels']] if labelled else \
             ['#%d' % i for i in range(len(dss[0]['X']))]
+        merged = {name: col for name, col in answers[1]}
         rdms = []
-        for ds, vec in zip(dss, a['vecs']):
+        for k, (ds, vec) in enumerate(zip(dss, a['vecs'])):
             if case.get('align'):       # every dataset's vector is in its own observation order
                 conds = [lkey(v) for v in ds['descs'][case['align']]]
             rdms.append({'values': _vals_from_vec(case, conds, vec),
-                         'rdesc': {k: lkey(v) for k, v in ds['ddesc'].items()}})
+                         'rdesc': {name: lkey(col[k]) for name, col in merged.items()}})
         return {'conds': sorted(conds), 'pdesc': {}, 'rdms': rdms}
     # movie: frames of every dataset, in order
     rdms, conds = [], None
@@ -726,6 +791,29 @@ def features(case, impl):
             br.append('movie:list')
         if not labelled:
             br.append('movie:nodesc')
+        tform = case.get('tform', {})
+        tl = [fr(t) for t in case['times']]
+        if len(set(tl)) < len(tl):
+            br.append('movie:repeated_time')
+        if case['bins'] is not None and \
+                len(_frame_groups(tl, [[fr(x) for x in b] for b in case['bins']])) < len(case['bins']):
+            br.append('movie:merged_bins')
+        if tform.get('default_time'):
+            br.append('movie:default_time')
+        if tform.get('tdesc_type') == 'list':
+            br.append('movie:time_list')
+        if case['bins'] is not None and tform.get('bins_type') == 'list':
+            br.append('movie:bins_list')
+        if isinstance(nz, dict) and 'per' in nz:
+            br.append('movie:noise_list')
+        if case['tname'] != 'time':
+            br.append('movie:other_time_descriptor')
+    if isinstance(nz, dict) and 'per' in nz and any(m is None for m in nz['per']):
+        br.append('noise:list_none')
+    if any('params' in ds['ddesc'] for ds in dss):
+        br.append('ddesc:vector')
+    if len({frozenset(ds['ddesc']) for ds in dss}) > 1:
+        br.append('ddesc:names_differ')
     if isinstance(impl, dict) and impl.get('pdesc'):
         for v in impl['pdesc'].values():
             br.append('pdesc:dropped' if v is None else 'pdesc:kept')
@@ -735,6 +823,15 @@ def features(case, impl):
             'bins': case.get('bins') is not None, 'dtype': var['dtype'],
             'desc_type': var['desc_type'], 'n_obs': len(dss[0]['X']),
             'ddesc_names_differ': len({frozenset(ds['ddesc']) for ds in dss}) > 1,
+            'repeated_time': case['kind'] == 'movie' and
+            len(set(case['times'])) < len(case['times']),
+            'merged_frames': case['kind'] == 'movie' and
+            len(_frame_groups([fr(t) for t in case['times']],
+                              None if case['bins'] is None else
+                              [[fr(x) for x in b] for b in case['bins']])) <
+            (len(case['times']) if case['bins'] is None else len(case['bins'])),
+            'bins_as_lists': case['kind'] == 'movie' and case.get('bins') is not None
+            and case.get('tform', {}).get('bins_type') == 'list',
             'bins_other_time_descriptor': case['kind'] == 'movie' and case.get('bins') is not None
             and case.get('tname') != 'time',
             'exc': impl.get('exc') if isinstance(impl, dict) else None,
@@ -793,7 +890,7 @@ def _o_noise(case, k):
     if nz is None:
         return None
     m = nz['one'] if 'one' in nz else nz['per'][k]
-    return [[fr(v) for v in row] for row in m]
+    return None if m is None else [[fr(v) for v in row] for row in m]
 
 
 def _o_expected(case):
@@ -816,26 +913,32 @@ def _o_expected(case):
             out.append((means, _o_noise(case, k), {n: lkey(v) for n, v in ds['ddesc'].items()}))
         return out
     times = [fr(t) for t in case['times']]
+    T = len(times)
     if case['bins'] is None:
-        groups = [([t], times[t]) for t in range(len(times))]
+        slices = [([t], times[t]) for t in range(T)]
     else:
-        groups = []
+        slices = []
         for b in case['bins']:
-            sel = [t for t in range(len(times)) if times[t] in [fr(x) for x in b]]
-            groups.append((sel, sum(times[t] for t in sel) / len(sel)))
+            sel = [t for t in range(T) if times[t] in [fr(x) for x in b]]
+            slices.append((sel, sum(times[t] for t in sel) / len(sel)))
+    frames = {}      # equal (binned) time values are one frame holding all their slices
+    for sel, tval in slices:
+        frames.setdefault(tval, []).append(sel)
     for k, ds in enumerate(dss):
         n = len(ds['X'])
-        keys = [lkey(l) for l in ds['labels']] if ds['labels'] is not None else \
-            ['#%d' % i for i in range(n)]
-        for sel, tval in groups:
+        for tval, sels in frames.items():
             means = {}
-            for i in range(n):
-                row = [sum(fr(ds['X'][i][c][t]) for t in sel) / len(sel) for c in range(case['P'])]
-                means.setdefault(keys[i], []).append(row)
+            for j, sel in enumerate(sels):
+                for i in range(n):
+                    row = [sum(fr(ds['X'][i][c][t]) for t in sel) / len(sel)
+                           for c in range(case['P'])]
+                    key = lkey(ds['labels'][i]) if ds['labels'] is not None else \
+                        '#%d' % (j * n + i)
+                    means.setdefault(key, []).append(row)
             means = {key: [sum(c) / len(rows) for c in zip(*rows)] for key, rows in means.items()}
             rd = {nm: lkey(v) for nm, v in ds['ddesc'].items()}
             rd[case['tname']] = lkey(tval)
-            out.append((means, _o_noise(case, 0), rd))
+            out.append((means, _o_noise(case, k), rd))
     return out
 
 
